@@ -63,7 +63,8 @@ Lemma c01_wild_nofail cfg r0 m h :
   length t = length h /\ Forall (fun x => snd x = ROk) t /\
   (exists S', apply_all (ri r0) [] (all_events t) = Some S') /\
   c01_discipline_b m t = true /\ c01_error_b (c_fail_at cfg) 0 t = true /\
-  (lib_mono_b cfg (fs_init m) h = true -> c01_refeed_b [] h t = true).
+  (lib_mono_b cfg (fs_init m) h = true -> c01_refeed_b [] h t = true) /\
+  ((forall x, In x h -> c_first cfg < bnum x) -> lib_mono_b cfg (fs_init m) h = true).
 Proof.
   intros Hnofail Hm Hnew Hundo Hwf Hr0.
   exact (wild_lib_run h r0 cfg Hnofail Hnew Hundo (bridge_id h Hwf) (bridge_uniq h Hwf) (bridge_up h Hwf) Hr0
@@ -92,7 +93,7 @@ Lemma c01_wild_mono_proved : c01_wild_mono_statement.
 Proof.
   intros cfg r0 m h Hm Hnew Hundo Hwf Hr0 Hmono. rewrite cfg_nofail_eq in Hmono.
   destruct (c_fail_at cfg) as [k|] eqn:Hf.
-  - destruct (c01_wild_nofail (nofail cfg) r0 m h eq_refl Hm Hnew Hundo Hwf Hr0) as (Hlen & Hok & Happ & _ & _ & Hre).
+  - destruct (c01_wild_nofail (nofail cfg) r0 m h eq_refl Hm Hnew Hundo Hwf Hr0) as (Hlen & Hok & Happ & _ & _ & Hre & _).
     destruct (run_fail_c01 cfg k Hf (ri r0) h (fs_init m) [] []) as ((S2 & Happ2) & Hre2 & Herr2 & Hres2).
     + rewrite (rooted_ncalls r0 m Hm). lia.
     + exact Hok.
@@ -103,7 +104,7 @@ Proof.
       * exact Hre2.
       * rewrite Hf. rewrite (rooted_ncalls r0 m Hm) in Herr2. exact Herr2.
   - assert (Ec : nofail cfg = cfg) by (destruct cfg; cbn in Hf; subst; reflexivity). rewrite Ec in Hmono.
-    destruct (c01_wild_nofail cfg r0 m h Hf Hm Hnew Hundo Hwf Hr0) as (Hlen & Hok & _ & Hd & He & Hre).
+    destruct (c01_wild_nofail cfg r0 m h Hf Hm Hnew Hundo Hwf Hr0) as (Hlen & Hok & _ & Hd & He & Hre & _).
     unfold c01_statement. split; [exact Hd|]. split; [exact (Hre Hmono) | exact He].
 Qed.
 
@@ -158,7 +159,8 @@ Lemma c01_wild_disc_nofail cfg h :
   let t := fk_run cfg (fs_init LNone) h in
   length t = length h /\ Forall (fun x => snd x = ROk) t /\
   disc_ok t /\ c01_discipline_b LNone t = true /\ c01_error_b (c_fail_at cfg) 0 t = true /\
-  (lib_mono_b cfg (fs_init LNone) h = true -> c01_refeed_b [] h t = true).
+  (lib_mono_b cfg (fs_init LNone) h = true -> c01_refeed_b [] h t = true) /\
+  ((forall x, In x h -> c_first cfg < bnum x) -> lib_mono_b cfg (fs_init LNone) h = true).
 Proof.
   intros Hnofail Hhold Hincl Hnew Hundo Hwf.
   exact (wild_disc_run h cfg Hnofail Hnew Hundo Hhold Hincl (bridge_id h Hwf) (bridge_uniq h Hwf) (bridge_up h Hwf)
@@ -205,7 +207,7 @@ Lemma c01_wild_discovery_mono_proved : c01_wild_discovery_mono_statement.
 Proof.
   intros cfg h Hhold Hincl Hnew Hundo Hwf Hmono. rewrite cfg_nofail_eq in Hmono.
   destruct (c_fail_at cfg) as [k|] eqn:Hf.
-  - destruct (c01_wild_disc_nofail (nofail cfg) h eq_refl Hhold Hincl Hnew Hundo Hwf) as (Hlen & Hok & Happ & _ & _ & Hre).
+  - destruct (c01_wild_disc_nofail (nofail cfg) h eq_refl Hhold Hincl Hnew Hundo Hwf) as (Hlen & Hok & Happ & _ & _ & Hre & _).
     destruct (run_fail_c01 cfg k Hf (root_lib LNone (fk_run (nofail cfg) (fs_init LNone) h)) h (fs_init LNone) [] [])
       as ((S2 & Happ2) & Hre2 & Herr2 & Hres2).
     + cbn. lia.
@@ -215,7 +217,7 @@ Proof.
     + unfold c01_statement. split; [exact (disc_root_cut cfg k h Hf Hok S2 Happ2)|].
       split; [exact Hre2 | rewrite Hf; exact Herr2].
   - assert (Ec : nofail cfg = cfg) by (destruct cfg; cbn in Hf; subst; reflexivity). rewrite Ec in Hmono.
-    destruct (c01_wild_disc_nofail cfg h Hf Hhold Hincl Hnew Hundo Hwf) as (Hlen & Hok & _ & Hd & He & Hre).
+    destruct (c01_wild_disc_nofail cfg h Hf Hhold Hincl Hnew Hundo Hwf) as (Hlen & Hok & _ & Hd & He & Hre & _).
     unfold c01_statement. split; [exact Hd|]. split; [exact (Hre Hmono) | exact He].
 Qed.
 
@@ -259,4 +261,27 @@ Proof.
            (bridge_id h Hwf) (bridge_uniq h Hwf) (bridge_up h Hwf) (bridge2_decl_none h Hscope) h (fs_init LNone)).
   - apply pre_init.
   - intros b Hb. exact Hb.
+Qed.
+
+(* ---- every block above the first streamable block ---- *)
+Lemma above_first_parts cfg h : above_first_b cfg h = true -> forall x, In x h -> c_first (nofail cfg) < bnum x.
+Proof.
+  unfold above_first_b. intros H x Hx. rewrite forallb_forall in H. specialize (H x Hx). apply N.ltb_lt in H. exact H.
+Qed.
+
+Lemma c01_wild_first_proved : c01_wild_first_statement.
+Proof.
+  split.
+  - intros cfg r0 m h Hm Hnew Hundo Hwf Hr0 Hab.
+    assert (Hmono : lib_mono_b (cfg_nofail cfg) (fs_init m) h = true).
+    { rewrite cfg_nofail_eq.
+      destruct (c01_wild_nofail (nofail cfg) r0 m h eq_refl Hm Hnew Hundo Hwf Hr0) as (_ & _ & _ & _ & _ & _ & Hmn).
+      apply Hmn. exact (above_first_parts cfg h Hab). }
+    split; [|exact Hmono]. exact (c01_wild_mono_proved cfg r0 m h Hm Hnew Hundo Hwf Hr0 Hmono).
+  - intros cfg h Hhold Hincl Hnew Hundo Hwf Hab.
+    assert (Hmono : lib_mono_b (cfg_nofail cfg) (fs_init LNone) h = true).
+    { rewrite cfg_nofail_eq.
+      destruct (c01_wild_disc_nofail (nofail cfg) h eq_refl Hhold Hincl Hnew Hundo Hwf) as (_ & _ & _ & _ & _ & _ & Hmn).
+      apply Hmn. exact (above_first_parts cfg h Hab). }
+    split; [|exact Hmono]. exact (c01_wild_discovery_mono_proved cfg h Hhold Hincl Hnew Hundo Hwf Hmono).
 Qed.
